@@ -85,6 +85,23 @@ Proof. exact (event_delivered ob_flush_checks_straddle ob_flush_checks_contains 
                ob_sse_has_lflf ob_sse_has_crcr ob_sse_has_crlf ob_sse_patterns_nonzero). Qed.
 Print Assumptions T02_event_delivered.
 
+(* ... tied to the write sequence of (modelled) Response.Write: after the head — whatever its
+   writes, empty ones included — and the earlier reads of an unchunked event stream body, the
+   write of the read that completes an event flushes. *)
+Theorem T02_sse_body_event_delivered : forall head rs1 d rs2 t a c,
+  In t event_terminators -> Forall (fun y => y <> []) rs1 ->
+  concat rs1 ++ d = a ++ t ++ c -> (length c < length d)%nat ->
+  nth_error (flush_flags sse_flush_patterns ((head ++ [crlf]) ++ rs1 ++ d :: rs2))
+            (length (head ++ [crlf]) + length rs1) = Some true.
+Proof. exact (sse_body_event_delivered ob_flush_checks_straddle ob_flush_checks_contains sse_flush_patterns
+               ob_sse_has_lflf ob_sse_has_crcr ob_sse_has_crlf ob_sse_patterns_nonzero). Qed.
+Print Assumptions T02_sse_body_event_delivered.
+Theorem T02_sse_write_shape : forall meth r,
+  g_head (go_state meth r) = false -> g_te (go_state meth r) = false -> (g_cl (go_state meth r) =? -1)%Z = true ->
+  exists h, go_writes meth r = (h ++ [crlf]) ++ reads_of r /\ Forall (fun y => y <> []) (reads_of r).
+Proof. exact go_writes_unchunked_shape. Qed.
+Print Assumptions T02_sse_write_shape.
+
 (* Every chunk the (modelled) chunked writer emits is flushed by its last write, by the chunk
    writer and by the event stream writer. *)
 Theorem T02_chunk_delivered : forall ws1 d ws2,
